@@ -47,6 +47,10 @@ func readResults(sock, unit string, r *reading, statusLog string, giveUp *atomic
 	}
 	defer c.Close()
 	req, _ := json.Marshal(map[string]interface{}{"command": "work", "subcommand": "results", "unitid": unit, "startpos": r.P})
+	if r.P%2 == 1 {
+		// the other spelling of the same command (controlsvc.go InitFromString): "work results <unit> <startpos>"
+		req = []byte(fmt.Sprintf("work results %s %d", unit, r.P))
+	}
 	r.AskLines = countLines(statusLog)
 	r.TAsk = time.Now()
 	l, err := c.Cmd(string(req), 5*time.Second)
@@ -309,11 +313,20 @@ func runLocal(c *Ctx, sh *shared, dir string) {
 			results[i], errs[i] = runUnit(n, statusLog, jobs[i].p, jobs[i].offs, jobs[i].delay)
 		}(i)
 	}
+	var exp *unitRun
+	var expErr error
+	wg.Add(1)
+	go func() { defer wg.Done(); exp, expErr = runExpiring(n, statusLog) }()
 	wg.Wait()
 	if !n.Alive() {
 		sh.violate("the daemon died while serving results: "+n.ExitState(), "daemon-died", nil)
 	}
 	allLines := readStatusLog(statusLog)
+	if expErr != nil && exp == nil {
+		sh.violate("scenario could not run: "+expErr.Error(), "harness-scenario", "expiring")
+	} else {
+		judgeExpiring(sh, n, exp, expErr, allLines, daemonPid)
+	}
 	for i, u := range results {
 		if errs[i] != nil && u == nil {
 			sh.violate("scenario could not run: "+errs[i].Error(), "harness-scenario", jobs[i].p)
@@ -422,5 +435,84 @@ func judgeUnit(sh *shared, n *Node, u *unitRun, runErr error, allLines []statusL
 		got := coqBytes(r.Got, r.P)
 		sh.rc.Add(fmt.Sprintf("CR (RCase %d %s %s %s %s)", r.P, CoqList(pre), CoqList(post), got, CoqBool(r.Ended)),
 			fmt.Sprintf("results plan=%s steps=%v moment=%s p=%d got=%d ended=%v", p.Name, p.Steps, r.Moment, r.P, len(r.Got), r.Ended))
+	}
+}
+
+// runExpiring: a remote unit for a node that does not exist, with a time to live of two seconds.  It
+// never produces a stdout file; when the time is over it is Failed ("Work unit expired").  Results
+// asked before must end then — not earlier — with nothing; results asked afterwards end at once.
+func runExpiring(n *Node, statusLog string) (*unitRun, error) {
+	u := &unitRun{Plan: plan{Name: "expiring"}}
+	unit, _, err := Submit(n.Sock, map[string]interface{}{"node": "c05nowhere", "worktype": "emit", "ttl": "2s"}, nil, 20*time.Second)
+	if err != nil || unit == "" {
+		return nil, fmt.Errorf("submit with ttl: %v", err)
+	}
+	u.Unit, u.TStart = unit, time.Now()
+	hardStop := time.Now().Add(20 * time.Second)
+	var wg sync.WaitGroup
+	start := func(moment string, ps []int) {
+		for _, off := range ps {
+			r := &reading{P: off, Moment: moment}
+			u.Readings = append(u.Readings, r)
+			wg.Add(1)
+			go func() { defer wg.Done(); readResults(n.Sock, unit, r, statusLog, &u.giveUp, hardStop) }()
+		}
+	}
+	start("before", []int{0, 1, 7})
+	for time.Now().Before(hardStop) {
+		if st, err := WorkStatus(n.Sock, unit, 3*time.Second); err == nil && stateOf(st) == 3 {
+			u.Final, u.TDone = st, time.Now()
+			break
+		}
+		time.Sleep(25 * time.Millisecond)
+	}
+	if u.TDone.IsZero() {
+		u.giveUp.Store(time.Now().UnixNano())
+		wg.Wait()
+		return u, fmt.Errorf("the unit with a time to live of 2 s did not fail within 20 s")
+	}
+	u.giveUp.Store(u.TDone.Add(4 * time.Second).UnixNano())
+	start("after", []int{0, 2})
+	wg.Wait()
+	return u, nil
+}
+
+func judgeExpiring(sh *shared, n *Node, u *unitRun, runErr error, allLines []statusLine, daemonPid int) {
+	statusFile := filepath.Join(n.UnitDir(u.Unit), "status")
+	var lines []statusLine
+	for _, l := range allLines {
+		if l.File == statusFile {
+			lines = append(lines, l)
+		}
+	}
+	sh.mu.Lock()
+	defer sh.mu.Unlock()
+	im := sh.im
+	rep := map[string]interface{}{"plan": "remote unit for an unreachable node, ttl 2s"}
+	if runErr != nil {
+		im.Violate(runErr.Error(), "unit-did-not-finish", rep)
+		return
+	}
+	if _, err := os.Stat(filepath.Join(n.UnitDir(u.Unit), "stdout")); err == nil {
+		im.Hist("expiring:stdout-file-exists")
+	}
+	for _, r := range u.Readings {
+		im.Count(fmt.Sprintf("expiring/%s/%d", r.Moment, r.P), r.Moment == "before")
+		im.Hist("moment:" + r.Moment)
+		im.Hist("plan:expiring")
+		rep := map[string]interface{}{"plan": "remote unit for an unreachable node, ttl 2s", "p": r.P, "moment": r.Moment, "ended": r.Ended, "got_bytes": len(r.Got)}
+		switch {
+		case r.Err != "":
+			im.Violate("work results failed: "+r.Err, "results-error", rep)
+		case len(r.Got) > 0:
+			im.Violate(fmt.Sprintf("results of a unit without output delivered %d bytes", len(r.Got)), "results-wrong-bytes", rep)
+		case !r.Ended:
+			im.Violate(fmt.Sprintf("results from %d of a unit that failed without output (asked %s) still open 4 s after it failed", r.P, r.Moment), "results-no-end", rep)
+		case r.Moment == "before" && r.TEnd.Before(u.TStart.Add(1800*time.Millisecond)):
+			im.Violate(fmt.Sprintf("results from %d ended %v after the submission, before the unit's time to live (2 s) was over", r.P, r.TEnd.Sub(u.TStart)), "results-ended-early", rep)
+		}
+		pre, post, _ := envTrace(lines, daemonPid, nil, false, r.AskLines, nil)
+		sh.rc.Add(fmt.Sprintf("CR (RCase %d %s %s [] %s)", r.P, CoqList(pre), CoqList(post), CoqBool(r.Ended)),
+			fmt.Sprintf("results of a unit that never has a stdout file (ttl expired): moment=%s p=%d ended=%v", r.Moment, r.P, r.Ended))
 	}
 }
